@@ -256,6 +256,7 @@ class PE:
         self.stats = {"splits": 0, "blocks": 0, "inlined": 0}
         self.max_visits = 0
         self.memo_joins = False
+        self.deadline = None
 
     # ---- hooks ---------------------------------------------------------------------------------
     def init_mem(self, state, base, path, type_):
@@ -461,6 +462,10 @@ class PE:
         work = [(stack, block, prev, state, idx)]
         while work:
             stack, block, prev, state, idx = work.pop()
+            if self.deadline is not None and (self.steps & 0x3ff) < 8:
+                import time
+                if time.time() > self.deadline:
+                    raise AnalysisBroken("partial evaluation exceeded its time budget")
             if len(self.leaves) >= self.max_leaves or self.steps > self.max_steps:
                 self.leaves.append(Leaf("limit", state))
                 raise AnalysisBroken("partial evaluation exceeded its budget (%d leaves, %d steps)" % (len(self.leaves), self.steps))
